@@ -759,6 +759,194 @@ pub fn cycle_outcome(c: &CycleCase) -> Outcome {
     o
 }
 
+// --------------------------------------------------------------------------------------------
+// a send is IN FLIGHT on the victim's connection (its write window is closed) when it dies
+
+#[derive(Debug, Clone, Serialize, Deserialize, PartialEq, Eq, Hash)]
+pub struct InflightCase {
+    pub kind: Kind,
+    pub healthy: usize,
+    /// bytes of the pending message the victim's connection still accepts before it stalls
+    pub budget: usize,
+    /// second-frame length of the message that gets stuck
+    pub size: usize,
+    pub write_err: u8,
+}
+
+pub const INFLIGHT_KINDS: [Kind; 5] = [Kind::Push, Kind::Dealer, Kind::Req, Kind::Router, Kind::Rep];
+
+pub fn inflight_outcome(c: &InflightCase) -> Outcome {
+    use crate::pipe::Window;
+    let mut o = Outcome::new(hash_of(c));
+    o.nontrivial = true;
+    let c2 = c.clone();
+    let (r, panics) = capture_panics(|| {
+        run_sim(async move {
+            let c = c2;
+            let kind = c.kind;
+            let who = kind.name();
+            let mut f: Vec<Failure> = vec![];
+            let reached = std::cell::Cell::new(false);
+            let mut sim = Sim::new();
+            let s = sim.socket(kind, None);
+            let mut healthy: Vec<(Link, Vec<u8>)> = vec![];
+            for _ in 0..c.healthy.max(1) {
+                match simx::attach_raw(&mut sim, s, None).await {
+                    Ok(x) => healthy.push(x),
+                    Err(e) => {
+                        fail!(f, format!("C16/{}/setup", who), "{}", e);
+                        return (f, reached.get());
+                    }
+                }
+            }
+            let (victim, vid) = match simx::attach_raw(&mut sim, s, None).await {
+                Ok(x) => x,
+                Err(e) => {
+                    fail!(f, format!("C16/{}/setup", who), "{}", e);
+                    return (f, reached.get());
+                }
+            };
+            victim.from_lib.set_window(Window::Budget(c.budget));
+            let big = fill(7, c.size);
+            // get a send pending on the victim
+            let mut pending: Option<usize> = None;
+            match kind {
+                Kind::Router => {
+                    pending = Some(sim.send(s, &[vid.clone(), big.clone()]));
+                }
+                Kind::Rep => {
+                    victim.raw_send_now(&[vec![], b"request-from-the-victim".to_vec()]);
+                    let r = sim.recv(s);
+                    match sim.run(r).await {
+                        Ok(Some(Out::Recv(Ok(_)))) => pending = Some(sim.send(s, &[big.clone()])),
+                        other => {
+                            fail!(f, "C16/REP/setup", "{:?}", other.map(|o| o.map(|o| o.err_text().map(|s| s.to_string()))));
+                            return (f, reached.get());
+                        }
+                    }
+                }
+                _ => {
+                    // rotation: keep sending until one send stays pending (the victim's turn)
+                    for i in 0..(healthy.len() + 2) {
+                        let a = sim.send(s, &[format!("m{}", i).into_bytes(), big.clone()]);
+                        match sim.run(a).await {
+                            Ok(None) => {
+                                pending = Some(a);
+                                break;
+                            }
+                            Ok(Some(Out::Send(Ok(())))) => {
+                                if kind == Kind::Req {
+                                    // whoever got it answers, so that the next request is in turn
+                                    for (l, _) in &healthy {
+                                        l.raw_send_now(&[vec![], b"ans".to_vec()]);
+                                    }
+                                    let r = sim.recv(s);
+                                    if let Ok(None) = sim.run(r).await {
+                                        // the request fitted into the victim's budget: nothing
+                                        // is in flight on the write side
+                                        sim.cancel(r);
+                                        return (f, reached.get());
+                                    }
+                                }
+                            }
+                            other => {
+                                fail!(f, format!("C16/{}/setup", who), "send #{}: {:?}", i, other.map(|o| o.map(|o| o.err_text().map(|s| s.to_string()))));
+                                return (f, reached.get());
+                            }
+                        }
+                    }
+                }
+            }
+            let Some(p) = pending else { return (f, false) };
+            let _ = sim.settle().await;
+            if sim.done(p) {
+                // the message fitted into the library's own buffer: nothing is in flight
+                return (f, reached.get());
+            }
+            reached.set(true);
+            // the connection dies
+            let ek = match c.write_err % 4 {
+                0 => std::io::ErrorKind::BrokenPipe,
+                1 => std::io::ErrorKind::ConnectionReset,
+                2 => std::io::ErrorKind::TimedOut,
+                _ => std::io::ErrorKind::ConnectionAborted,
+            };
+            victim.from_lib.break_writer(ek);
+            victim.to_lib.end_after_all(ReadEnd::Err(std::io::ErrorKind::ConnectionReset));
+            if sim.settle().await.is_err() {
+                fail!(f, format!("C16/{}/reset/spin", who), "socket does not settle after the connection with a send in flight died");
+                return (f, reached.get());
+            }
+            match sim.out(p) {
+                None => {
+                    fail!(f, format!("C16/{}/reset/send-in-flight-hangs", who), "a send was waiting on a connection's closed write window when that connection was reset: the send never returned ({} polls)", sim.polls(p));
+                    sim.cancel(p);
+                    return (f, reached.get());
+                }
+                Some(Out::Send(Ok(()))) => {
+                    fail!(f, format!("C16/{}/reset/send-in-flight-reports-success", who), "the send that was in flight on the connection that died returned Ok although at most {} of its bytes had been accepted", c.budget);
+                }
+                Some(_) => {}
+            }
+            // the socket goes on working with the healthy peers and has let go of the victim
+            let before: usize = healthy.iter().map(|(l, _)| l.lib_messages_prefix().map(|x| x.0.len()).unwrap_or(0)).sum();
+            match kind {
+                Kind::Router => {
+                    let a = sim.send(s, &[healthy[0].1.clone(), b"after".to_vec()]);
+                    let _ = sim.run(a).await;
+                }
+                Kind::Rep => {
+                    healthy[0].0.raw_send_now(&[vec![], b"request-after".to_vec()]);
+                    let r = sim.recv(s);
+                    if let Ok(Some(Out::Recv(Ok(_)))) = sim.run(r).await {
+                        let a = sim.send(s, &[b"after".to_vec()]);
+                        let _ = sim.run(a).await;
+                    }
+                }
+                _ => {
+                    for i in 0..2 {
+                        let a = sim.send(s, &[format!("after{}", i).into_bytes()]);
+                        if let Ok(None) = sim.run(a).await {
+                            fail!(f, format!("C16/{}/reset/send-hangs", who), "a later send stays pending although only healthy peers are left");
+                            sim.cancel(a);
+                            return (f, reached.get());
+                        }
+                        if kind == Kind::Req {
+                            break;
+                        }
+                    }
+                }
+            }
+            let after: usize = healthy.iter().map(|(l, _)| l.lib_messages_prefix().map(|x| x.0.len()).unwrap_or(0)).sum();
+            if after == before {
+                fail!(f, format!("C16/{}/reset/healthy-traffic-disturbed", who), "after the connection with a send in flight died no further message reached a healthy peer");
+            }
+            if !victim.from_lib.writer_dropped() {
+                fail!(f, format!("C16/{}/reset/write-half-retained", who), "the write on the dead connection failed ({} failed writes) but the socket still holds its write half", victim.from_lib.failed_writes());
+            }
+            if kind.fair_queue_recv() || kind == Kind::Req {
+                // the read half goes with it (REQ/fair-queue sockets hold one)
+                if !victim.to_lib.reader_dropped() {
+                    fail!(f, format!("C16/{}/reset/read-half-retained", who), "the socket still holds the read half of the dead connection");
+                }
+            }
+            (f, reached.get())
+        })
+    });
+    if let Some((f, reached)) = r {
+        o.failures = f;
+        if reached {
+            o.class("send-in-flight-when-the-peer-dies");
+        } else {
+            o.nontrivial = false;
+        }
+    }
+    for p in panics {
+        o.fail(format!("C16/panic/{}", panic_sig(&p)), format!("{} in-flight: {}", c.kind.name(), p));
+    }
+    o
+}
+
 pub fn enumerated() -> Vec<CutCase> {
     let msgs = vec![vec![6usize, 0, 300], vec![2]];
     let mut v = vec![];
@@ -846,6 +1034,22 @@ pub fn run(ctx: &Ctx) -> (Report, PropertyMeta) {
     report.sections.push(json!({"part": "random cut positions / kinds / victim traffic / healthy peer counts / tails", "cases": n}));
     report.merge(r);
 
+    // a send in flight on the victim when it dies
+    let mut ic = vec![];
+    for kind in INFLIGHT_KINDS {
+        for healthy in [1usize, 2] {
+            for budget in [0usize, 1, 9, 300] {
+                for size in [10usize, 5000, 300_000] {
+                    for write_err in [0u8, 1] {
+                        ic.push(InflightCase { kind, healthy, budget, size, write_err });
+                    }
+                }
+            }
+        }
+    }
+    let r = run_cases(ctx, "inflight", &ic, inflight_outcome);
+    report.exhaustive_parts.push(format!("PUSH/DEALER/REQ/ROUTER/REP x 1..2 healthy peers x a send pending on the victim's closed write window (4 budgets x 3 sizes) when its connection is reset (2 error kinds): {} cases", ic.len()));
+    report.merge(r);
     if t == Tier::Thorough {
         crate::fuzzing::campaign(ctx, &mut report, "sim", 180);
     }
@@ -876,10 +1080,11 @@ pub fn run(ctx: &Ctx) -> (Report, PropertyMeta) {
     health_abs(&mut report, "write-error-other-than-EPIPE", 300);
     health_abs(&mut report, "publish-matching-the-victims-subscription", 300);
     health_abs(&mut report, "cut-protocol-error", 300);
+    health_abs(&mut report, "send-in-flight-when-the-peer-dies", 100);
 
     let meta = PropertyMeta {
         level: "fault_enumeration",
-        rule: "every socket type with 1..3 healthy raw peers and one victim whose connection ends at an enumerated / generated byte position of its stream (inside the greeting, between greeting and READY, inside READY, between messages, inside flags / size / body, between frames of a multipart message) by orderly close (EOF; writes fail afterwards, or - as with a TCP FIN - still succeed), reset (read error, writes fail), protocol error (the peer stays connected and sends a malformed command at a message boundary) or write-only failure (writes fail with EPIPE, ECONNRESET, ETIMEDOUT or ECONNABORTED), followed by rounds of healthy-peer traffic and application calls (recv until pending; sends that rotate onto / address the victim; REP replies; publishes, including ones matching the victim's subscription; SUB subscription changes). Oracle: (a) every healthy peer's message is still delivered exactly once in order, publishes reach healthy subscribers, successful sends land on healthy peers, and only the victim's COMPLETE messages surface; (b) recv reports at most one error for the event and the socket always reaches quiescence; (c) once the socket has observed the end (a read returned EOF/error or a write failed) no send fails because it was routed to that peer, and ROUTER send to its identity fails; (d) after observation both connection halves the library held are dropped; a connection that ends during the handshake is never admitted and is released. Real transports: after N connect-handshake-talk-disconnect cycles over TCP and IPC against a long-lived socket of every type the process's open-descriptor count and the runtime's alive-task count are within a constant of their values after 10 cycles. Non-trivial = cut strictly inside a message or inside the handshake; distinct by case".into(),
+        rule: "every socket type with 1..3 healthy raw peers and one victim whose connection ends at an enumerated / generated byte position of its stream (inside the greeting, between greeting and READY, inside READY, between messages, inside flags / size / body, between frames of a multipart message) by orderly close (EOF; writes fail afterwards, or - as with a TCP FIN - still succeed), reset (read error, writes fail), protocol error (the peer stays connected and sends a malformed command at a message boundary) or write-only failure (writes fail with EPIPE, ECONNRESET, ETIMEDOUT or ECONNABORTED), followed by rounds of healthy-peer traffic and application calls (recv until pending; sends that rotate onto / address the victim; REP replies; publishes, including ones matching the victim's subscription; SUB subscription changes). Oracle: (a) every healthy peer's message is still delivered exactly once in order, publishes reach healthy subscribers, successful sends land on healthy peers, and only the victim's COMPLETE messages surface; (b) recv reports at most one error for the event and the socket always reaches quiescence; (c) once the socket has observed the end (a read returned EOF/error or a write failed) no send fails because it was routed to that peer, and ROUTER send to its identity fails; (d) after observation both connection halves the library held are dropped; a connection that ends during the handshake is never admitted and is released. In-flight sends: with a send pending on the victim's closed write window (PUSH/DEALER/REQ/ROUTER/REP) the connection is reset - the send must return (an error), later sends reach healthy peers and both halves are dropped. Real transports: after N connect-handshake-talk-disconnect cycles over TCP and IPC against a long-lived socket of every type the process's open-descriptor count and the runtime's alive-task count are within a constant of their values after 10 cycles. Non-trivial = cut strictly inside a message or inside the handshake; distinct by case".into(),
         assumptions: vec![
             "a closed connection is modelled as EOF on reads plus BrokenPipe on writes (a fully closed TCP peer); half-close is not generated".into(),
             "'observed' is measured at the pipe: a read returned the end marker or a write returned the injected error".into(),
@@ -892,6 +1097,7 @@ pub fn run(ctx: &Ctx) -> (Report, PropertyMeta) {
 pub fn replay(_ctx: &Ctx, kind: &str, case: &Value) -> Vec<Failure> {
     match kind {
         "cut" => parse_case::<CutCase>(case).map(|c| cut_outcome(&c).failures),
+        "inflight" => parse_case::<InflightCase>(case).map(|c| inflight_outcome(&c).failures),
         "cycles" => parse_case::<CycleCase>(case).map(|c| {
             let r = cycle_outcome(&c).failures;
             crate::realnet::cleanup_scratch();
